@@ -8,9 +8,11 @@
 (*              otherwise ready.Wait() and look again                                         *)
 (* ErrFirst = TRUE is the code after the repair (err stored before status Failed);           *)
 (* ErrFirst = FALSE is the original order (status Failed, then err).                          *)
+(* OriFirst = TRUE: txQueue stores appTx.oribys (the bytes the executor reports) before it    *)
+(* publishes status Init (code after the repair); FALSE: after it (original order).           *)
 EXTENDS Integers, Sequences, FiniteSets, TLC
 
-CONSTANTS NTx, Workers, BadSig, Undecodable, ErrFirst
+CONSTANTS NTx, Workers, BadSig, Undecodable, ErrFirst, OriFirst
 
 Txs == 1..NTx
 
@@ -18,6 +20,7 @@ Txs == 1..NTx
   variables status = [i \in Txs |-> "None"],
             err    = [i \in Txs |-> FALSE],     \* appTx.err # nil
             ready  = [i \in Txs |-> 0],         \* WaitGroup counter
+            ori    = [i \in Txs |-> FALSE],     \* appTx.oribys stored
             out    = <<>>;                      \* what the executor did, in order
 
   fair process (initq = "initq")
@@ -26,7 +29,9 @@ Txs == 1..NTx
    Q0: while (qi <= NTx) {
    Q1:   ready[qi] := ready[qi] + 1;                      \* cur.ready.Add(1)
    Q2:   if (qi \in Undecodable) { err[qi] := TRUE };     \* cur.err = rlp error
-   Q3:   status[qi] := "Init";                            \* atomic.StoreInt32
+   Q3:   if (OriFirst) { ori[qi] := TRUE };
+         status[qi] := "Init";                            \* atomic.StoreInt32
+   Q4:   ori[qi] := TRUE;                                 \* apptxQ[i][0].oribys = tptx (original position)
          qi := qi + 1;
        }
   }
@@ -65,16 +70,18 @@ Txs == 1..NTx
   }
 
   fair process (exec = "exec")
-    variables ei = 1, es = "None";
+    variables ei = 1, es = "None", er = "none";
   {
    E0: while (ei <= NTx) {
    E1:   es := status[ei];                                \* atomic.LoadInt32
    E2:   if (es = "Checked") {
-           out := Append(out, [i |-> ei, r |-> "exec"]);  \* pcur.err = exec(...)
+           er := "exec";                                  \* pcur.err = exec(...)
+   E5a:    out := Append(out, [i |-> ei, r |-> er, b |-> ori[ei]]);   \* end(appTxQ[i][0].oribys, err)
            ei := ei + 1;
          } else if (es = "Failed") {
-   E3:     if (err[ei]) { out := Append(out, [i |-> ei, r |-> "invalid"]) }
-           else { out := Append(out, [i |-> ei, r |-> "valid-unexecuted"]) };   \* end(raw, nil)
+   E3:     if (err[ei]) { er := "invalid" }
+           else { er := "valid-unexecuted" };             \* end(raw, nil)
+   E5b:    out := Append(out, [i |-> ei, r |-> er, b |-> ori[ei]]);
            ei := ei + 1;
          } else {
    E4:     await ready[ei] = 0;                           \* pcur.ready.Wait() (returns at once before Add)
@@ -84,9 +91,9 @@ Txs == 1..NTx
   }
 } *)
 \* BEGIN TRANSLATION
-VARIABLES pc, status, err, ready, out, qi, vi, st, ei, es
+VARIABLES pc, status, err, ready, ori, out, qi, vi, st, ei, es, er
 
-vars == << pc, status, err, ready, out, qi, vi, st, ei, es >>
+vars == << pc, status, err, ready, ori, out, qi, vi, st, ei, es, er >>
 
 ProcSet == {"initq"} \cup (Workers) \cup {"exec"}
 
@@ -94,6 +101,7 @@ Init == (* Global variables *)
         /\ status = [i \in Txs |-> "None"]
         /\ err = [i \in Txs |-> FALSE]
         /\ ready = [i \in Txs |-> 0]
+        /\ ori = [i \in Txs |-> FALSE]
         /\ out = <<>>
         (* Process initq *)
         /\ qi = 1
@@ -103,6 +111,7 @@ Init == (* Global variables *)
         (* Process exec *)
         /\ ei = 1
         /\ es = "None"
+        /\ er = "none"
         /\ pc = [self \in ProcSet |-> CASE self = "initq" -> "Q0"
                                         [] self \in Workers -> "V0"
                                         [] self = "exec" -> "E0"]
@@ -111,12 +120,12 @@ Q0 == /\ pc["initq"] = "Q0"
       /\ IF qi <= NTx
             THEN /\ pc' = [pc EXCEPT !["initq"] = "Q1"]
             ELSE /\ pc' = [pc EXCEPT !["initq"] = "Done"]
-      /\ UNCHANGED << status, err, ready, out, qi, vi, st, ei, es >>
+      /\ UNCHANGED << status, err, ready, ori, out, qi, vi, st, ei, es, er >>
 
 Q1 == /\ pc["initq"] = "Q1"
       /\ ready' = [ready EXCEPT ![qi] = ready[qi] + 1]
       /\ pc' = [pc EXCEPT !["initq"] = "Q2"]
-      /\ UNCHANGED << status, err, out, qi, vi, st, ei, es >>
+      /\ UNCHANGED << status, err, ori, out, qi, vi, st, ei, es, er >>
 
 Q2 == /\ pc["initq"] = "Q2"
       /\ IF qi \in Undecodable
@@ -124,26 +133,36 @@ Q2 == /\ pc["initq"] = "Q2"
             ELSE /\ TRUE
                  /\ err' = err
       /\ pc' = [pc EXCEPT !["initq"] = "Q3"]
-      /\ UNCHANGED << status, ready, out, qi, vi, st, ei, es >>
+      /\ UNCHANGED << status, ready, ori, out, qi, vi, st, ei, es, er >>
 
 Q3 == /\ pc["initq"] = "Q3"
+      /\ IF OriFirst
+            THEN /\ ori' = [ori EXCEPT ![qi] = TRUE]
+            ELSE /\ TRUE
+                 /\ ori' = ori
       /\ status' = [status EXCEPT ![qi] = "Init"]
+      /\ pc' = [pc EXCEPT !["initq"] = "Q4"]
+      /\ UNCHANGED << err, ready, out, qi, vi, st, ei, es, er >>
+
+Q4 == /\ pc["initq"] = "Q4"
+      /\ ori' = [ori EXCEPT ![qi] = TRUE]
       /\ qi' = qi + 1
       /\ pc' = [pc EXCEPT !["initq"] = "Q0"]
-      /\ UNCHANGED << err, ready, out, vi, st, ei, es >>
+      /\ UNCHANGED << status, err, ready, out, vi, st, ei, es, er >>
 
-initq == Q0 \/ Q1 \/ Q2 \/ Q3
+initq == Q0 \/ Q1 \/ Q2 \/ Q3 \/ Q4
 
 V0(self) == /\ pc[self] = "V0"
             /\ IF vi[self] <= NTx
                   THEN /\ pc' = [pc EXCEPT ![self] = "V1"]
                   ELSE /\ pc' = [pc EXCEPT ![self] = "Done"]
-            /\ UNCHANGED << status, err, ready, out, qi, vi, st, ei, es >>
+            /\ UNCHANGED << status, err, ready, ori, out, qi, vi, st, ei, es, 
+                            er >>
 
 V1(self) == /\ pc[self] = "V1"
             /\ st' = [st EXCEPT ![self] = status[vi[self]]]
             /\ pc' = [pc EXCEPT ![self] = "V2"]
-            /\ UNCHANGED << status, err, ready, out, qi, vi, ei, es >>
+            /\ UNCHANGED << status, err, ready, ori, out, qi, vi, ei, es, er >>
 
 V2(self) == /\ pc[self] = "V2"
             /\ IF st[self] = "None"
@@ -154,7 +173,7 @@ V2(self) == /\ pc[self] = "V2"
                                   /\ vi' = vi
                              ELSE /\ vi' = [vi EXCEPT ![self] = vi[self] + 1]
                                   /\ pc' = [pc EXCEPT ![self] = "V0"]
-            /\ UNCHANGED << status, err, ready, out, qi, st, ei, es >>
+            /\ UNCHANGED << status, err, ready, ori, out, qi, st, ei, es, er >>
 
 V3(self) == /\ pc[self] = "V3"
             /\ IF status[vi[self]] = "Init"
@@ -162,7 +181,7 @@ V3(self) == /\ pc[self] = "V3"
                        /\ pc' = [pc EXCEPT ![self] = "V4"]
                   ELSE /\ pc' = [pc EXCEPT ![self] = "V1"]
                        /\ UNCHANGED status
-            /\ UNCHANGED << err, ready, out, qi, vi, st, ei, es >>
+            /\ UNCHANGED << err, ready, ori, out, qi, vi, st, ei, es, er >>
 
 V4(self) == /\ pc[self] = "V4"
             /\ IF err[vi[self]]
@@ -180,33 +199,33 @@ V4(self) == /\ pc[self] = "V4"
                              ELSE /\ status' = [status EXCEPT ![vi[self]] = "Checked"]
                                   /\ pc' = [pc EXCEPT ![self] = "V8"]
                                   /\ err' = err
-            /\ UNCHANGED << ready, out, qi, vi, st, ei, es >>
+            /\ UNCHANGED << ready, ori, out, qi, vi, st, ei, es, er >>
 
 V5(self) == /\ pc[self] = "V5"
             /\ ready' = [ready EXCEPT ![vi[self]] = ready[vi[self]] - 1]
             /\ pc' = [pc EXCEPT ![self] = "V1"]
-            /\ UNCHANGED << status, err, out, qi, vi, st, ei, es >>
+            /\ UNCHANGED << status, err, ori, out, qi, vi, st, ei, es, er >>
 
 V7(self) == /\ pc[self] = "V7"
             /\ ready' = [ready EXCEPT ![vi[self]] = ready[vi[self]] - 1]
             /\ vi' = [vi EXCEPT ![self] = vi[self] + 1]
             /\ pc' = [pc EXCEPT ![self] = "V0"]
-            /\ UNCHANGED << status, err, out, qi, st, ei, es >>
+            /\ UNCHANGED << status, err, ori, out, qi, st, ei, es, er >>
 
 V8(self) == /\ pc[self] = "V8"
             /\ ready' = [ready EXCEPT ![vi[self]] = ready[vi[self]] - 1]
             /\ pc' = [pc EXCEPT ![self] = "V1"]
-            /\ UNCHANGED << status, err, out, qi, vi, st, ei, es >>
+            /\ UNCHANGED << status, err, ori, out, qi, vi, st, ei, es, er >>
 
 V6a(self) == /\ pc[self] = "V6a"
              /\ status' = [status EXCEPT ![vi[self]] = "Failed"]
              /\ pc' = [pc EXCEPT ![self] = "V7"]
-             /\ UNCHANGED << err, ready, out, qi, vi, st, ei, es >>
+             /\ UNCHANGED << err, ready, ori, out, qi, vi, st, ei, es, er >>
 
 V6b(self) == /\ pc[self] = "V6b"
              /\ err' = [err EXCEPT ![vi[self]] = TRUE]
              /\ pc' = [pc EXCEPT ![self] = "V7"]
-             /\ UNCHANGED << status, ready, out, qi, vi, st, ei, es >>
+             /\ UNCHANGED << status, ready, ori, out, qi, vi, st, ei, es, er >>
 
 val(self) == V0(self) \/ V1(self) \/ V2(self) \/ V3(self) \/ V4(self)
                 \/ V5(self) \/ V7(self) \/ V8(self) \/ V6a(self)
@@ -216,38 +235,48 @@ E0 == /\ pc["exec"] = "E0"
       /\ IF ei <= NTx
             THEN /\ pc' = [pc EXCEPT !["exec"] = "E1"]
             ELSE /\ pc' = [pc EXCEPT !["exec"] = "Done"]
-      /\ UNCHANGED << status, err, ready, out, qi, vi, st, ei, es >>
+      /\ UNCHANGED << status, err, ready, ori, out, qi, vi, st, ei, es, er >>
 
 E1 == /\ pc["exec"] = "E1"
       /\ es' = status[ei]
       /\ pc' = [pc EXCEPT !["exec"] = "E2"]
-      /\ UNCHANGED << status, err, ready, out, qi, vi, st, ei >>
+      /\ UNCHANGED << status, err, ready, ori, out, qi, vi, st, ei, er >>
 
 E2 == /\ pc["exec"] = "E2"
       /\ IF es = "Checked"
-            THEN /\ out' = Append(out, [i |-> ei, r |-> "exec"])
-                 /\ ei' = ei + 1
-                 /\ pc' = [pc EXCEPT !["exec"] = "E0"]
+            THEN /\ er' = "exec"
+                 /\ pc' = [pc EXCEPT !["exec"] = "E5a"]
             ELSE /\ IF es = "Failed"
                        THEN /\ pc' = [pc EXCEPT !["exec"] = "E3"]
                        ELSE /\ pc' = [pc EXCEPT !["exec"] = "E4"]
-                 /\ UNCHANGED << out, ei >>
-      /\ UNCHANGED << status, err, ready, qi, vi, st, es >>
+                 /\ er' = er
+      /\ UNCHANGED << status, err, ready, ori, out, qi, vi, st, ei, es >>
+
+E5a == /\ pc["exec"] = "E5a"
+       /\ out' = Append(out, [i |-> ei, r |-> er, b |-> ori[ei]])
+       /\ ei' = ei + 1
+       /\ pc' = [pc EXCEPT !["exec"] = "E0"]
+       /\ UNCHANGED << status, err, ready, ori, qi, vi, st, es, er >>
 
 E3 == /\ pc["exec"] = "E3"
       /\ IF err[ei]
-            THEN /\ out' = Append(out, [i |-> ei, r |-> "invalid"])
-            ELSE /\ out' = Append(out, [i |-> ei, r |-> "valid-unexecuted"])
-      /\ ei' = ei + 1
-      /\ pc' = [pc EXCEPT !["exec"] = "E0"]
-      /\ UNCHANGED << status, err, ready, qi, vi, st, es >>
+            THEN /\ er' = "invalid"
+            ELSE /\ er' = "valid-unexecuted"
+      /\ pc' = [pc EXCEPT !["exec"] = "E5b"]
+      /\ UNCHANGED << status, err, ready, ori, out, qi, vi, st, ei, es >>
+
+E5b == /\ pc["exec"] = "E5b"
+       /\ out' = Append(out, [i |-> ei, r |-> er, b |-> ori[ei]])
+       /\ ei' = ei + 1
+       /\ pc' = [pc EXCEPT !["exec"] = "E0"]
+       /\ UNCHANGED << status, err, ready, ori, qi, vi, st, es, er >>
 
 E4 == /\ pc["exec"] = "E4"
       /\ ready[ei] = 0
       /\ pc' = [pc EXCEPT !["exec"] = "E1"]
-      /\ UNCHANGED << status, err, ready, out, qi, vi, st, ei, es >>
+      /\ UNCHANGED << status, err, ready, ori, out, qi, vi, st, ei, es, er >>
 
-exec == E0 \/ E1 \/ E2 \/ E3 \/ E4
+exec == E0 \/ E1 \/ E2 \/ E5a \/ E3 \/ E5b \/ E4
 
 (* Allow infinite stuttering to prevent deadlock on termination. *)
 Terminating == /\ \A self \in ProcSet: pc[self] = "Done"
@@ -274,6 +303,8 @@ ExecOrder == \A k \in 1..Len(out) : out[k].i = k
 FailedHasError == \A k \in 1..Len(out) : out[k].r # "valid-unexecuted"
 \* the classification is the serial one, whatever the interleaving
 SerialOutcome == Done => \A k \in Txs : out[k].r = IF k \in BadSig \cup Undecodable THEN "invalid" ELSE "exec"
+\* the executor reports every transaction with its original bytes
+BytesReported == \A k \in 1..Len(out) : out[k].b
 WaitGroupSane == \A i \in Txs : ready[i] \in {0, 1}
 ExecTerminates == <>Done
 =======================================================================================
